@@ -365,6 +365,52 @@ def gen_c12(tier, rng):
     return traces
 
 
+def gen_c11_server(tier, rng):
+    """C11 through serving handlers: garbage, then read requests of distinct cells (distinct values) on serial framings"""
+    traces = []
+    maxframe = {"rtu": 256, "ascii": 513, "bin": 514}
+    fixed = {"bin": [b"{}", b"{\x01}", b"xx{}yy", b"}{", b"{{"], "ascii": [b":\r\n", b"::", b":0\r\n", b":01\r\n", b":0103\r\n:"],
+             "rtu": [b"\x00", b"\x01\x03", b"\x01\x10\x00", b"\x01\x2b\x0e", b"\xff\xff\xff"]}
+    pairs = [("syncSerial", "rtu"), ("syncSerial", "ascii"), ("syncSerial", "bin"), ("syncTcp", "rtu"), ("aioTcp", "ascii"), ("twTcp", "rtu")]
+    k = 0
+    for fe, kind in pairs:
+        for c in range(6 if tier == "quick" else 40):
+            cfg = {"single": 0, "hosted": [1], "broadcast": 0, "ignore": 1}
+            ctx = dm.layout(1, dm.seq_block(0, 8), dm.seq_block(0, 8), dm.seq_block(0, 400), dm.seq_block(0, 8))
+            ctx["blocks"]["bh"]["ov"] = [[a, 1000 + a] for a in range(400)]        # distinct values: a response identifies its request
+            case = Case("y%d" % k, "resync", fe, kind, cfg, [[1, ctx]])
+            if c < len(fixed[kind]):
+                g = fixed[kind][c]
+            else:
+                g = bytes(rng.randrange(256) for _ in range(rng.choice([1, 2, 5, 17, 40])))
+            nreq = (3 * maxframe[kind]) // {"rtu": 8, "ascii": 17, "bin": 10}[kind] + 4
+            addrs = list(range(1, 399))
+            if kind == "bin":
+                # 0x7B / 0x7D inside a binary frame (request or response) is the C03/C06/C11 known finding: keep it out
+                ok = lambda a: not ({0x7B, 0x7D} & set(F.pyframe("rtu", 0, 0, 1, dm.pdu_read(3, a, 1)) +
+                                                       F.pyframe("rtu", 0, 0, 1, bytes([3, 2]) + struct.pack(">H", 1000 + a))))
+                addrs = [a for a in addrs if ok(a)]
+            reqs = [(1, 0, dm.pdu_read(3, a, 1)) for a in addrs[:nreq]]
+            frames = build_frames(kind, reqs)
+            case.add_conn([g] + frames)
+            per = rng.choice([1, 1, 2, 3])
+            sched = [(1, len(g))]
+            chunk = 0
+            for j, f in enumerate(frames):
+                chunk += len(f["bytes"])
+                if (j + 1) % per == 0:
+                    sched.append((1, chunk))
+                    chunk = 0
+            if chunk:
+                sched.append((1, chunk))
+            case.schedule = sched
+            t = run_case(case)
+            t["g"] = len(g)
+            traces.append(t)
+            k += 1
+    return traces
+
+
 def obs_of(trace, conn_filter=None):
     obs = []
     for e in trace["ev"]:
